@@ -3578,4 +3578,126 @@ theorem lessBy_strict_weak {α : Type} (key : α → Str) :
     cases x <;> cases y <;> simp_all [lessBy]
     exact List.le_antisymm h2 h1
 
+/-! ## Constructors, kind accessors and small predicates, as translated -/
+
+/-- every constructor refuses the empty subject (returns nil) -/
+theorem gen_new_nil :
+    V2.NewAccountClaims [] = some none ∧ V2.NewActivationClaims [] = some none ∧
+    V2.NewAuthorizationRequestClaims [] = some none ∧ V2.NewAuthorizationResponseClaims [] = some none ∧
+    V2.NewGenericClaims [] = some none ∧ V2.NewOperatorClaims [] = some none ∧ V2.NewUserClaims [] = some none :=
+  ⟨rfl, rfl, rfl, rfl, rfl, rfl, rfl⟩
+
+/-- `NewAccountClaims`: the subject is set; the three maps are allocated and empty; nats and account limits are
+unlimited, JetStream is off; nothing else is set -/
+theorem gen_newAccountClaims (s : Str) (hs : s ≠ []) :
+    ∃ c, V2.NewAccountClaims s = some (some c) ∧
+      c.f_ClaimsData = { (default : V2.T_ClaimsData) with f_Subject := s } ∧
+      c.f_Account.f_SigningKeys = some [] ∧ c.f_Account.f_Mappings = some [] ∧
+      c.f_Account.f_Limits.f_JetStreamTieredLimits = some [] ∧
+      c.f_Account.f_Limits.f_NatsLimits = { f_Subs := -1, f_Data := -1, f_Payload := -1 } ∧
+      c.f_Account.f_Limits.f_AccountLimits =
+        { f_Imports := -1, f_Exports := -1, f_WildcardExports := true, f_DisallowBearer := false, f_Conn := -1,
+          f_LeafNodeConn := -1 } ∧
+      c.f_Account.f_Limits.f_JetStreamLimits = default ∧
+      V2.OperatorLimits_IsJSEnabled c.f_Account.f_Limits = some false ∧
+      ({ c.f_Account with f_SigningKeys := default, f_Mappings := default, f_Limits := default } : V2.T_Account) = default := by
+  unfold V2.NewAccountClaims
+  simp only [hs, beq_iff_eq, if_false, Option.pure_def, Option.bind_eq_bind, Option.bind_some]
+  exact ⟨_, rfl, rfl, rfl, rfl, rfl, rfl, rfl, rfl, rfl, rfl⟩
+
+/-- the other constructors set the subject (the operator: also the issuer; generic: an allocated data map) and nothing else -/
+theorem gen_newOthers (s : Str) (hs : s ≠ []) :
+    V2.NewActivationClaims s = some (some { f_ClaimsData := { (default : V2.T_ClaimsData) with f_Subject := s }, f_Activation := default }) ∧
+    V2.NewAuthorizationRequestClaims s = some (some { (default : V2.T_AuthorizationRequestClaims) with
+      f_ClaimsData := { (default : V2.T_ClaimsData) with f_Subject := s } }) ∧
+    V2.NewAuthorizationResponseClaims s = some (some { (default : V2.T_AuthorizationResponseClaims) with
+      f_ClaimsData := { (default : V2.T_ClaimsData) with f_Subject := s } }) ∧
+    V2.NewGenericClaims s = some (some { f_ClaimsData := { (default : V2.T_ClaimsData) with f_Subject := s }, f_Data := some [] }) ∧
+    V2.NewOperatorClaims s = some (some {
+      f_ClaimsData := { f_Audience := [], f_Expires := 0, f_ID := [], f_IssuedAt := 0, f_Issuer := s, f_Name := [], f_NotBefore := 0, f_Subject := s },
+      f_Operator := default }) := by
+  refine ⟨?_, ?_, ?_, ?_, ?_⟩
+  · unfold V2.NewActivationClaims; simp [hs]
+  · unfold V2.NewAuthorizationRequestClaims; simp [hs]; exact ⟨rfl, rfl, rfl, rfl, rfl, rfl, rfl⟩
+  · unfold V2.NewAuthorizationResponseClaims; simp [hs]; exact ⟨rfl, rfl, rfl, rfl, rfl, rfl, rfl⟩
+  · unfold V2.NewGenericClaims; simp [hs]
+  · unfold V2.NewOperatorClaims; simp [hs]; exact ⟨rfl, rfl, rfl, rfl, rfl, rfl⟩
+
+/-- `NewUserScope`: a user scope whose template has unlimited nats limits and nothing else -/
+theorem gen_newUserScope :
+    V2.NewUserScope = some { { (default : V2.T_UserScope) with f_Kind := 1 } with
+      f_Template := { (default : V2.T_UserPermissionLimits) with f_Limits := { (default : V2.T_Limits) with
+        f_NatsLimits := { f_Subs := -1, f_Data := -1, f_Payload := -1 } } } } := rfl
+
+/-- `ClaimType()` reads the kind from the claim's own `nats` section -/
+theorem v2_claimType (o : V2.T_OperatorClaims) (a : V2.T_AccountClaims) (u : V2.T_UserClaims) (ac : V2.T_ActivationClaims)
+    (rq : V2.T_AuthorizationRequestClaims) (rs : V2.T_AuthorizationResponseClaims) :
+    V2.OperatorClaims_ClaimType o = some o.f_Operator.f_GenericFields.f_Type ∧
+    V2.AccountClaims_ClaimType a = some a.f_Account.f_GenericFields.f_Type ∧
+    V2.UserClaims_ClaimType u = some u.f_User.f_GenericFields.f_Type ∧
+    V2.ActivationClaims_ClaimType ac = some ac.f_Activation.f_GenericFields.f_Type ∧
+    V2.AuthorizationRequestClaims_ClaimType rq = some rq.f_AuthorizationRequest.f_GenericFields.f_Type ∧
+    V2.AuthorizationResponseClaims_ClaimType rs = some rs.f_AuthorizationResponse.f_GenericFields.f_Type :=
+  ⟨rfl, rfl, rfl, rfl, rfl, rfl⟩
+
+/-- `IsGenericClaimType`: everything except the six typed kind names -/
+theorem v2_isGenericClaimType (s : Str) :
+    V2.IsGenericClaimType s = some (decide (s ∉ ["operator".toList, "account".toList, "user".toList,
+      "authorization_request".toList, "authorization_response".toList, "activation".toList])) := by
+  unfold V2.IsGenericClaimType
+  have e1 : ("operator".toList : Str) = ['o', 'p', 'e', 'r', 'a', 't', 'o', 'r'] := by decide
+  have e2 : ("account".toList : Str) = ['a', 'c', 'c', 'o', 'u', 'n', 't'] := by decide
+  have e3 : ("user".toList : Str) = ['u', 's', 'e', 'r'] := by decide
+  have e4 : ("activation".toList : Str) = ['a', 'c', 't', 'i', 'v', 'a', 't', 'i', 'o', 'n'] := by decide
+  have e5 : ("authorization_request".toList : Str) =
+      ['a', 'u', 't', 'h', 'o', 'r', 'i', 'z', 'a', 't', 'i', 'o', 'n', '_', 'r', 'e', 'q', 'u', 'e', 's', 't'] := by decide
+  have e6 : ("authorization_response".toList : Str) =
+      ['a', 'u', 't', 'h', 'o', 'r', 'i', 'z', 'a', 't', 'i', 'o', 'n', '_', 'r', 'e', 's', 'p', 'o', 'n', 's', 'e'] := by decide
+  simp only [e1, e2, e3, e4, e5, e6, List.mem_cons, List.not_mem_nil, or_false]
+  by_cases h1 : s = ['o', 'p', 'e', 'r', 'a', 't', 'o', 'r']
+  · simp [h1]
+  by_cases h2 : s = ['a', 'c', 'c', 'o', 'u', 'n', 't']
+  · simp [h2]
+  by_cases h3 : s = ['u', 's', 'e', 'r']
+  · simp [h3]
+  by_cases h4 : s = ['a', 'u', 't', 'h', 'o', 'r', 'i', 'z', 'a', 't', 'i', 'o', 'n', '_', 'r', 'e', 'q', 'u', 'e', 's', 't']
+  · simp [h4]
+  by_cases h5 : s = ['a', 'u', 't', 'h', 'o', 'r', 'i', 'z', 'a', 't', 'i', 'o', 'n', '_', 'r', 'e', 's', 'p', 'o', 'n', 's', 'e']
+  · simp [h5]
+  by_cases h6 : s = ['a', 'c', 't', 'i', 'v', 'a', 't', 'i', 'o', 'n']
+  · simp [h6]
+  simp [h1, h2, h3, h4, h5, h6]
+
+/-- `IsJSEnabled`: with tiers, some tier grants memory or disk storage; without, the flat limits do -/
+theorem v2_isJSEnabled (o : V2.T_OperatorLimits) :
+    V2.OperatorLimits_IsJSEnabled o = some
+      (if mapLen o.f_JetStreamTieredLimits > 0 then
+        (mapEntries o.f_JetStreamTieredLimits).any (fun e => e.2.f_MemoryStorage != 0 || e.2.f_DiskStorage != 0)
+       else (o.f_JetStreamLimits.f_MemoryStorage != 0 || o.f_JetStreamLimits.f_DiskStorage != 0)) := by
+  have hb : ∀ (i : Int) (e : Str × V2.T_JetStreamLimits),
+      V2.OperatorLimits_IsJSEnabled.loop1 i e () =
+        some (if (e.2.f_MemoryStorage != 0 || e.2.f_DiskStorage != 0) then .ret true else .next ()) := by
+    intro i e
+    unfold V2.OperatorLimits_IsJSEnabled.loop1
+    cases h : (e.2.f_MemoryStorage != 0 || e.2.f_DiskStorage != 0) <;> simp_all
+  unfold V2.OperatorLimits_IsJSEnabled
+  by_cases ht : mapLen o.f_JetStreamTieredLimits > 0
+  · simp only [ht, decide_true, if_true, forRange, forRangeFrom_search _ _ true hb]
+    cases (mapEntries o.f_JetStreamTieredLimits).any _ <;> rfl
+  · simp [ht]
+
+/-- `Exports.Add` / `Imports.Add` append; `AddMapping` allocates the map if needed and stores under the subject;
+`HasExternalAuthorization` asks whether any auth user is listed -/
+theorem v2_adds (e i : List (Option V2.T_Export)) (m a : List (Option V2.T_Import)) (acct : V2.T_Account) :
+    V2.Exports_Add e i = some (e ++ i) ∧ V2.Imports_Add m a = some (m ++ a) ∧
+    V2.Account_HasExternalAuthorization acct = some (decide (len acct.f_Authorization.f_AuthUsers > 0)) :=
+  ⟨rfl, rfl, rfl⟩
+
+theorem v2_addMapping (a : V2.T_Account) (sub : Str) (to : List V2.T_WeightedMapping) :
+    ∃ m', V2.Account_AddMapping a sub to = some { a with f_Mappings := m' } ∧ mapGet m' sub = some to := by
+  unfold V2.Account_AddMapping
+  cases hm : a.f_Mappings with
+  | none => exact ⟨_, by simp [hm, mapSet]; rfl, by simp [mapGet, mapLookup]⟩
+  | some l => exact ⟨_, by simp [hm, mapSet]; rfl, by simp [mapGet, mapLookup]⟩
+
 end Jwt.FnTie
